@@ -107,7 +107,7 @@ type FieldSpec struct {
 
 // compileField compiles the given Field source into a FieldSpec.
 func compileField(src *ast.Field, options fieldOptions) (*FieldSpec, error) {
-	if (src.ID < 1 && !options.allowNegativeIDs) || src.ID > math.MaxInt16 {
+	if (src.ID < 1 && !options.allowNegativeIDs) || src.ID > math.MaxInt16 || src.ID < math.MinInt16 {
 		return nil, fieldIDOutOfBoundsError{ID: src.ID, Name: src.Name}
 	}
 
@@ -142,7 +142,6 @@ func compileField(src *ast.Field, options fieldOptions) (*FieldSpec, error) {
 	}
 
 	return &FieldSpec{
-		// TODO(abg): perform bounds check on field ID
 		ID:          int16(src.ID),
 		Name:        src.Name,
 		Type:        typ,
